@@ -556,7 +556,9 @@ def _present_keys(explainable: Explainable, options: Options) -> Set[str]:
     try:
         keys = explainable.explain(options)
     except Exception:  # noqa: E722
-        return set()
+        # What it depends on cannot be determined (e.g. a dispatch that cannot be
+        # evaluated): anything present may have contributed to the failure.
+        return set(options.keys())
 
     return {key for key in keys if dotted_key_exists(key, options)}
 
